@@ -558,6 +558,7 @@ func C08(c *core.Ctx) {
 			jobs = append(jobs, job{i, randomVariety(c.Rand)})
 		}
 	}
+	wires := make([]wireRead, len(jobs))
 	core.ParallelFor(len(jobs), func(ji int) {
 		j := jobs[ji]
 		cc, oo, ee := cfgs[j.i], opts[j.i], exps[j.i]
@@ -565,12 +566,16 @@ func C08(c *core.Ctx) {
 		if err != nil {
 			core.Infra("personalise(%v): %v", cc, err)
 		}
+		defer func() { wires[ji].name = fmt.Sprintf("%s | %s", cc, oo) }()
 		name := fmt.Sprintf("%s | %s | pace=%s/%d ca=%s/%d aa=%d/%d ks=%s maxLe=%d tr=%+v dg13=%d", cc, oo, paceOidName(j.v.PaceOID), j.v.PaceParam, caOidName(j.v.CaOID), j.v.CaParam, j.v.AaBits, j.v.AaParam, j.v.KeySpec, j.v.MaxLe, j.v.Transport, j.v.DG13Size)
 		o := runSession(p, oo, j.v.MaxLe, nil, nil, j.v.Seed)
 		c.Case(name, true)
 		rp := map[string]any{"config": cc, "options": oo, "variety": fmt.Sprintf("%+v", j.v), "expected": ee,
 			"real": fmt.Sprintf("err=%q obtained=%v pace=%s cam=%s bac=%s aa=%s ca=%s complete=%v pa=%v trusted=%v chipAuth=%s", o.err, o.obtained, o.pace, o.cam, o.bac, o.aa, o.ca, o.complete, o.pa, o.trusted, o.chipAuth)}
 		safetyViolations(c, "C08", name, p, o, rp)
+		if o.err == "" {
+			wires[ji] = wireOf(o, cc, oo, p)
+		}
 		if o.err != "" {
 			c.Violation("C08:read-fails:"+sessErrClass(o.err), fmt.Sprintf("reading a conforming chip failed (%s): %s", name, o.err), rp)
 			return
@@ -619,6 +624,9 @@ func C08(c *core.Ctx) {
 	c.AddTraces(int64(len(jobs)))
 	c.Extra["configurations_in_model"] = len(cfgs)
 	c.Extra["reads"] = len(jobs)
+	// the chip-side command record of every completed read against the command language of Wire.tla
+	// (beyond the listed clauses of C08: a divergence is reported as a NOTE and counted, not a verdict)
+	wireValidate(c, wires)
 	if len(jobs) > 0 {
 		c.Sample(map[string]any{"config": cfgs[jobs[0].i].String(), "options": opts[jobs[0].i].String(), "expected": exps[jobs[0].i]})
 		c.Sample(map[string]any{"config": cfgs[jobs[len(jobs)-1].i].String(), "options": opts[jobs[len(jobs)-1].i].String(), "expected": exps[jobs[len(jobs)-1].i]})
@@ -855,4 +863,103 @@ func offlineVerifyImpl(blob []byte, trust [][]byte, aaChallenge []byte) (out off
 	}
 	out.docEx = de
 	return
+}
+
+// ---- Wire.tla binding ------------------------------------------------------------------------------------------
+
+type wireRead struct {
+	name   string
+	rd     map[string]any
+	events []map[string]any
+}
+
+func wireOf(o sessOutcome, cc sessCfg, oo sessOpt, p *perso.Passport) wireRead {
+	w := wireRead{rd: map[string]any{"skipPace": oo.SkipPace, "skipImages": oo.SkipImages, "pw": oo.Pw, "order": p.SODOrder,
+		"cam": strings.HasPrefix(cc.Access, "cam"), "ca": cc.Ca}}
+	for _, a := range o.truth.Accepted {
+		tags := []int{}
+		if tl, err := chipsim.ParseTLVs(a.Data); err == nil && (a.INS == 0x22 || a.INS == 0x86) {
+			for _, t := range tl {
+				if t.Tag == 0x7C {
+					if in, err := chipsim.ParseTLVs(t.Value); err == nil {
+						for _, x := range in {
+							tags = append(tags, int(x.Tag))
+						}
+					}
+				} else {
+					tags = append(tags, int(t.Tag))
+				}
+			}
+		}
+		fid := 0
+		if a.INS == 0xA4 && a.P1 == 0x02 && len(a.Data) == 2 {
+			fid = int(a.Data[0])<<8 | int(a.Data[1])
+		}
+		w.events = append(w.events, map[string]any{"ins": int(a.INS), "p1": int(a.P1), "p2": int(a.P2), "chain": a.CLA&0x10 != 0, "sec": a.Secured,
+			"nc": len(a.Data), "ne": a.Ne, "tags": tags, "fid": fid, "sw": int(a.SW)})
+	}
+	return w
+}
+
+func wireValidate(c *core.Ctx, wires []wireRead) {
+	var trace, index [][]byte
+	var names []string
+	for _, w := range wires {
+		if len(w.events) == 0 {
+			continue
+		}
+		from := len(trace) + 1
+		for _, e := range w.events {
+			trace = append(trace, core.JSONLine(e))
+		}
+		index = append(index, core.JSONLine(map[string]any{"from": from, "to": len(trace), "rd": w.rd}))
+		names = append(names, w.name)
+	}
+	if len(index) == 0 {
+		return
+	}
+	accepted := map[int]bool{}
+	reached := map[int]int{}
+	files := map[string][]byte{"trace.ndjson": bytes.Join(trace, []byte("\n")), "index.ndjson": bytes.Join(index, []byte("\n"))}
+	run := func(cfg string) {
+		r, err := c.TLC(core.TLCOpts{Module: "Trace_Wire", Cfg: cfg, Workers: 8, Timeout: 20 * time.Minute, Files: files,
+			OnLine: func(line string) {
+				if strings.HasPrefix(line, "<<\"ACCEPT\"") || strings.HasPrefix(line, "<<\"AT\"") {
+					if v, err := core.ParseTLA(line); err == nil {
+						t := v.([]any)
+						if core.Str(t[0]) == "ACCEPT" {
+							accepted[t[1].(int)] = true
+						} else if t[2].(int) > reached[t[1].(int)] {
+							reached[t[1].(int)] = t[2].(int)
+						}
+					}
+				}
+			}})
+		if err != nil {
+			core.Infra("C08: Trace_Wire: %v", err)
+		}
+		if !r.OK {
+			core.Infra("C08: Trace_Wire reported errors:\n%s", strings.Join(r.Errors, "\n"))
+		}
+	}
+	run("Trace_Wire.cfg")
+	if len(accepted) < len(index) {
+		run("Trace_Wire_diag.cfg") // second pass: how far did the reads that were not accepted get
+	}
+	rejected := 0
+	for i := range index {
+		if !accepted[i+1] {
+			rejected++
+			if rejected <= 5 {
+				var last string
+				if l := reached[i+1]; l > 0 && l < len(trace) {
+					last = string(trace[l]) // the line after the last one consumed
+				}
+				fmt.Printf("NOTE: C08: the command sequence of a read is not in the language of Wire.tla (%s): stopped before %s\n", names[i], last)
+			}
+		}
+	}
+	c.Extra["wire_traces_validated"] = len(index)
+	c.Extra["wire_traces_rejected"] = rejected
+	c.Extra["wire_commands"] = len(trace)
 }
